@@ -62,7 +62,14 @@ class NDict(SymDict):
         for k, _ in self.extra:
             if k is key: return True
         return bool(SymBool(self.has(key.t)))
-    def get(self, key, default=None): raise Unsupported("NDict.get")
+    def get(self, key, default=None):
+        if key in self:
+            for k, v in self.extra:
+                if k is key: return v
+            return _SomeEntry()
+        return default
+class _SomeEntry:
+    """the value a symbolic dict holds for a present name (never inspected by the functions under contract)"""
 
 FIELDS = {"origin": "int", "size": "int", "size_pow2": "int", "linker": "bool", "cached": "bool"}
 def inside(ro, rs, co, cs):                  # extent [ro, ro+rs) inside [co, co+cs), as check_region_is_in computes it
@@ -241,27 +248,13 @@ def _run_add_fixed(wrong, address_width=32):
     paths, obl = explore(run, max_paths=4000)
     return paths, obl, stats
 
-def _replay_outside(address_width=32):
-    """native replay of the finding candidate on the unmodified functions"""
-    bus = S.SoCBusHandler(address_width=address_width); elab.restore_stderr()
-    logging.getLogger("SoCBusHandler").disabled = True
-    try: bus.add_region("x", S.SoCRegion(origin=2**address_width, size=0x1000))
-    except S.SoCError: elab.restore_stderr(); return dict(reproduced=False)
-    g = bus.regions["x"]
-    return dict(reproduced=g.origin + g.size > 2**address_width, call=f"SoCBusHandler(address_width={address_width}).add_region('x', SoCRegion(origin=2**{address_width}, size=0x1000))", granted=f"origin=0x{g.origin:x} size=0x{g.size:x}")
-
 def c_add_fixed():
     out = _wrap("add_region[fixed-origin]", _run_add_fixed, ["litex.soc.integration.soc.SoCBusHandler.add_region (fixed-origin branch, io_regions_check symbolic)",
                 "litex.soc.integration.soc.SoCBusHandler.check_region_is_io (loop-cut, inlined)", "litex.soc.integration.soc.SoCBusHandler.check_regions_overlap (loop-cut, inlined)"],
                 "arbitrary handler state satisfying the class invariant (unbounded regions and io_regions, symbolic names); symbolic region, symbolic cached / linker / io_regions_check",
                 need=("loop0.init", "loop0.step", "loop1.init", "loop1.step"), extra_cover=lambda s: s["accepted"] >= 2 and s["raised"] >= 3)
-    for r_ in out["results"]:
-        if ".finding." in r_["name"]:
-            r_["kind"] = "finding-witness"; r_["what"] = "add_region accepts a fixed-origin region that lies beyond 2**address_width (no range check on fixed origins)"
-            if r_["status"] == NOINPUT:
-                rp = _replay_outside(); r_["replay_info"] = rp
-                if rp.get("reproduced"): r_["status"] = VIOLATED; r_["replay"] = "tools/replay_add_region_outside_address_space.py"
-    return out
+    return _mark_findings(out, "add_region range-checks nothing for a fixed-origin region: a region lying beyond 2**address_width is accepted, and SoC.finalize builds it with a decoder that never matches",
+                          "replay_add_region_outside_address_space")
 
 def _run_add_io(wrong):
     stats = dict(accepted=0, raised=0)
@@ -1035,7 +1028,8 @@ def _run_request_loop(wrong, which="request_all", shape="pins"):
         ctx.check("post.available-afterwards-is-a-subsequence-of-available-before,shorter-by-the-number-granted", z3.And(A.len == A0len - jl,
                     z3.ForAll([a], z3.Implies(z3.And(0 <= a, a < A.len), z3.Exists([b_], z3.And(0 <= b_, b_ < A0len, A0at(b_) == A.at(a)))))))
         ctx.check("post.stops-only-when-" + ("(name,len(r))-is-not-available" if numbered else "no-resource-of-that-name-is-available"), z3.ForAll([a], z3.Implies(z3.And(0 <= a, a < A.len), z3.Not(match(A.at(a), jl)))))
-        if wrong: ctx.check("wrong.exactly-one-granted", jl == 1)
+        # vacuity guard: the path condition admits the scenario `one available resource, it matches, nothing matched before`
+        if wrong: ctx.check("wrong.not(one-available-resource,nothing-matched-before,one-granted)", z3.Not(z3.And(A0len == 1, M0len == 0, jl == 1, W(0) == 0, A.len == 0)))
     paths, obl = explore(run, max_paths=4000)
     return paths, obl, stats
 
@@ -1043,6 +1037,135 @@ def c_request_loop(which, shape):
     return _wrap(f"ConstraintManager.{which}[{shape}]", lambda w: _run_request_loop(w, which, shape), [f"litex.build.generic_platform.ConstraintManager.{which}", "litex.build.generic_platform.ConstraintManager.request (run unmodified inside the cut loop)",
                  "litex.build.generic_platform._lookup (loop-cut)"], "arbitrary manager state satisfying the invariant (unbounded available / matched lists)",
                  need=("loop0.init", "loop0.step", "_lookup.loop0.init", "_lookup.loop0.step"), extra_cover=lambda s: s["returned"] >= 1 and s["raised"] >= 1)
+
+# =====================================================================================================================================
+# SoCBusHandler.add_slave / add_master: names (the bus adapters / remappers they build are hardware and are stubbed)
+# =====================================================================================================================================
+def _run_add_slave(wrong, with_region=True):
+    stats = dict(accepted=0, raised=0)
+    def run(ctx):
+        bus, seq, regs, ios, ioregs = _bus_state(ctx, inv_regs=True)
+        bus.io_regions_check = False
+        sl = SymRecordSeq("SL", {"x": "int"}); slaves = NDict(sl); ctx.assume(SymBool(sl.len >= 0)); bus.slaves = slaves
+        bus.add_adapter = lambda name, interface, direction="m2s": ("adapted", interface, direction)
+        _install_overlap(bus, regs)
+        name = Name(z3.Int("name")); slave = object()
+        r = _mk_region("n", cached=True) if with_region else None
+        if r is not None: ctx.assume((r.origin >= 0) & (r.size >= 1) & (r.size_pow2 >= r.size))
+        in_regs, in_io, in_sl = regs.has(name.t, old=True), ioregs.has(name.t, old=True), slaves.has(name.t, old=True)
+        try:
+            S.SoCBusHandler.add_slave(bus, name, slave, r)
+        except S.SoCError:
+            elab.restore_stderr(); stats["raised"] += 1
+            ctx.check("raise.slaves-unchanged", z3.BoolVal(bus.slaves is slaves and not slaves.extra))
+            return
+        stats["accepted"] += 1
+        ctx.check("post.name-was-not-a-slave-before(each-slave-name-granted-once)", z3.Not(in_sl))
+        ctx.check("post.slave-recorded-under-the-name(adapted-s2m)", z3.BoolVal(len(slaves.extra) == 1 and slaves.extra[0][0] is name and slaves.extra[0][1] == ("adapted", slave, "s2m")))
+        if with_region:
+            ctx.check("post.region-name-was-unused,region-added,windows-pairwise-disjoint", z3.And(z3.Not(in_regs), z3.Not(in_io), z3.BoolVal(len(regs.extra) == 1 and regs.extra[0][0] is name and regs.extra[0][1] is r), _disjoint(regs)))
+        else:
+            ctx.check("post.without-a-region-argument-a-region-of-that-name-exists;regions-unchanged", z3.And(in_regs, z3.BoolVal(not regs.extra and not ioregs.extra)))
+        if wrong: ctx.check("wrong.no-slave-before", sl.len == 0)
+    paths, obl = explore(run, max_paths=4000)
+    return paths, obl, stats
+def c_add_slave(with_region):
+    return _wrap(f"add_slave[{'region' if with_region else 'region=None'}]", lambda w: _run_add_slave(w, with_region), ["litex.soc.integration.soc.SoCBusHandler.add_slave", "litex.soc.integration.soc.SoCBusHandler.add_region"],
+                 "arbitrary handler state (unbounded regions / io_regions / slaves, symbolic names); add_adapter stubbed", extra_cover=lambda s: s["accepted"] >= 1 and s["raised"] >= 2)
+
+def _run_add_master(wrong):
+    stats = dict(accepted=0, raised=0)
+    def run(ctx):
+        bus, seq, regs, ios, ioregs = _bus_state(ctx)
+        ms = SymRecordSeq("MS", {"x": "int"}); masters = NDict(ms); ctx.assume(SymBool(ms.len >= 0)); bus.masters = masters
+        bus.add_adapter = lambda name, interface, direction="m2s": ("adapted", interface, direction)
+        bus.add_remapper = lambda name, interface, origin, size: ("remapped", interface)
+        name = Name(z3.Int("name")); master = object()
+        was = masters.has(name.t, old=True)
+        try:
+            S.SoCBusHandler.add_master(bus, name, master)
+        except S.SoCError:
+            elab.restore_stderr(); stats["raised"] += 1
+            ctx.check("raise=>name-already-a-master;masters-unchanged", z3.And(was, z3.BoolVal(not masters.extra))); return
+        stats["accepted"] += 1
+        ctx.check("post.name-was-not-a-master-before;master-recorded(adapted-m2s)", z3.And(z3.Not(was), z3.BoolVal(len(masters.extra) == 1 and masters.extra[0][0] is name and masters.extra[0][1] == ("adapted", master, "m2s"))))
+        if wrong: ctx.check("wrong.no-master-before", ms.len == 0)
+    paths, obl = explore(run)
+    return paths, obl, stats
+def c_add_master():
+    return _wrap("add_master", _run_add_master, ["litex.soc.integration.soc.SoCBusHandler.add_master"], "arbitrary masters dict (unbounded, symbolic names); add_adapter / add_remapper stubbed", extra_cover=lambda s: s["accepted"] >= 1 and s["raised"] >= 1)
+
+# =====================================================================================================================================
+# SoC.finalize: what it re-checks.  BOUNDED stand-in (concrete SoCCore(cpu_type=None) builds, labelled bounded, never counted as proved)
+# =====================================================================================================================================
+def _finalize_scenarios():
+    from migen import Module, Signal, Memory
+    from litex.gen import LiteXModule
+    from litex.build.sim import SimPlatform
+    from litex.soc.integration.soc_core import SoCCore
+    from litex.soc.interconnect.csr import CSRStorage
+    from litex.soc.interconnect import wishbone
+    class P(SimPlatform):
+        def __init__(self): SimPlatform.__init__(self, "SIM", [("sys_clk", 0, GP.Pins(1)), ("sys_rst", 0, GP.Pins(1))])
+    class Per(LiteXModule):
+        def __init__(self): self.r = CSRStorage(8, name="r")
+    def base(**kw):
+        soc = SoCCore(P(), 100e6, cpu_type=None, integrated_rom_size=0, integrated_sram_size=0x100, with_uart=False, with_timer=False, ident="", ident_version=False, **kw)
+        elab.restore_stderr(); return soc
+    def good(soc): soc.add_ram("ram2", origin=0x2000_0000, size=0x1800); soc.p0 = Per()
+    def unaligned(soc): soc.add_ram("ram2", origin=0x2000_0800, size=0x1000)                       # accepted by add_region; decoder() must reject it
+    def on_csr(soc): soc.add_ram("ram2", origin=soc.mem_map["csr"], size=0x1000)                   # the CSR bridge region is only requested by finalize
+    def csr_name(soc): soc.bus.add_region("csr", S.SoCRegion(origin=0x3000_0000, size=0x1000))     # the name finalize wants for the CSR bridge is taken
+    def pages(soc):
+        for k in range(5): setattr(soc, f"p{k}", Per())                                            # 4 pages only (address_width 14, paging 0x4000) + ctrl
+    def nodecode(soc):
+        soc.add_ram("ram2", origin=0x2000_0000, size=0x1000); soc.bus.regions["ram2"].decode = False
+    def reset_adr(soc): soc.cpu.reset_address = 0x5000_0000; soc.cpu.reset_address_check = True
+    def reset_ok(soc): soc.cpu.reset_address = soc.bus.regions["sram"].origin; soc.cpu.reset_address_check = True
+    return base, [("well-formed", {}, good, False), ("fixed-region-not-aligned-on-its-decoded-size", {}, unaligned, True), ("region-where-the-CSR-bridge-goes", {}, on_csr, True),
+                  ("name-csr-taken", {}, csr_name, True), ("more-CSR-clients-than-pages", dict(csr_paging=0x4000), pages, True), ("decoder-disabled-among-several-regions", {}, nodecode, True),
+                  ("CPU-reset-address-in-no-region", {}, reset_adr, True), ("CPU-reset-address-in-sram", {}, reset_ok, False)]
+
+def _soc_property_holds(soc):
+    """the property, evaluated on a finalized SoC"""
+    bad = []
+    regs = list(soc.bus.regions.items())
+    for x, (n0, r0) in enumerate(regs):
+        if n0 in soc.bus.slaves and r0.origin % r0.size_pow2: bad.append(f"{n0} not aligned")
+        if r0.origin < 0 or r0.origin + r0.size_pow2 > 2**soc.bus.address_width: bad.append(f"{n0} outside the address space")
+        for n1, r1 in regs[x + 1:]:
+            if not (r0.linker or r1.linker) and r0.origin < r1.origin + r1.size_pow2 and r1.origin < r0.origin + r0.size_pow2: bad.append(f"{n0}/{n1} overlap")
+    pages = list(soc.csr.locs.values())
+    if len(set(pages)) != len(pages): bad.append("CSR page granted twice")
+    if any(not (0 <= n < soc.csr.n_locs and soc.csr.paging * (n + 1) <= soc.bus.regions["csr"].size) for n in pages): bad.append("CSR page outside the CSR space")
+    clients = [m for _, _, m, _ in soc.csr_bankarray.banks] + [m for _, _, m, _ in soc.csr_bankarray.srams]
+    if len(set(clients)) != len(clients): bad.append("two CSR clients on one page")
+    return bad
+
+def c_finalize_bounded():
+    logging.disable(logging.CRITICAL)
+    base, scen = _finalize_scenarios()
+    out = []; n = 0
+    for std in ("wishbone", "axi-lite"):
+        for label, kw, prep, must_reject in scen:
+            n += 1; info = ""
+            try:
+                soc = base(bus_standard=std, **kw); prep(soc)
+                try:
+                    soc.finalize(); elab.restore_stderr(); rejected = False
+                except S.SoCError:
+                    elab.restore_stderr(); rejected = True
+                if must_reject: ok = rejected; info = "" if ok else "built without error"
+                else:
+                    bad = [] if rejected else _soc_property_holds(soc)
+                    ok = (not rejected) and not bad; info = "rejected" if rejected else str(bad)
+            except S.SoCError:
+                elab.restore_stderr(); ok = must_reject; info = "rejected before finalize"
+            out.append(res(f"SoC.finalize[{std},{label}]:" + ("rejected-with-SoCError" if must_reject else "builds;regions-disjoint,aligned,in-range;CSR-pages-unique,in-range"), "bounded", BOUNDED_OK if ok else VIOLATED, 0,
+                           "execution of the real SoCCore(cpu_type=None)/SoC.finalize on one concrete design", info=info))
+    logging.disable(logging.NOTSET)
+    return dict(results=out, functions=["litex.soc.integration.soc.SoC.finalize (bounded: 8 concrete designs x 2 bus standards)", "litex.soc.integration.soc.SoCBusHandler.do_finalize (bounded)", "litex.soc.integration.soc.SoC.add_csr_bridge (bounded)"],
+                samples=[dict(bounded="SoC.finalize", evaluations=n)])
 
 def cases(tier):
     cs = [Case("check_region_is_in(proof)", c_is_in), Case("check_region_is_io(proof)", c_is_io),
@@ -1058,6 +1181,8 @@ def cases(tier):
     cs += [Case(f"ConstraintManager.get_io_signals(proof,{sh})", c_io_signals, sh) for sh in ("pins", "record")]
     cs += [Case(f"ConstraintManager.add_extension(proof,prepend={pp})", c_add_extension, pp) for pp in (False, True)]
     cs += [Case(f"ConstraintManager.{w}(proof,{sh})", c_request_loop, w, sh) for w, sh in (("request_all", "pins"), ("request_remaining", "pins"), ("request_remaining", "record"))]
+    cs += [Case("add_slave(proof,region)", c_add_slave, True), Case("add_slave(proof,region=None)", c_add_slave, False), Case("add_master(proof)", c_add_master)]
+    cs += [Case("SoC.finalize(bounded)", c_finalize_bounded)]
     return cs
 
 ASSUMPTIONS = []
